@@ -145,6 +145,29 @@ pub fn run(tier: &str, seed: u64, outdir: &str, extra: &[String]) {
                 }
             }
         }
+        // VP8 extremes: key frames from the frame writer with the quantiser forced to the top of its range, then the token
+        // partitions overwritten with constant / random bytes (all-ones tokens decode to the largest coefficients the
+        // format can express); wrapped as a simple lossy file
+        {
+            use crate::gen_vp8;
+            let n = if thorough { 6000 } else { 1200 };
+            let opts = gen_vp8::GenOpts { max_dim: 40, wide_pct: 50, lf_ambiguous_pct: 20, colorspace_pct: 0 };
+            for k in 0..n {
+                let (mut spec, _, _) = gen_vp8::random_spec(&mut rng, &opts);
+                if rng.chance(3, 4) { spec.yac_qi = *rng.pick(&[127u8, 127, 126, 120, 100]); }
+                let w = catch(std::panic::AssertUnwindSafe(|| gen_vp8::write_frame(&spec)));
+                let Ok(w) = w else { continue };
+                let mut payload = w.payload;
+                let nparts = w.part_sizes.len().saturating_sub(1).max(1);
+                let tok = (10 + w.part_sizes.first().copied().unwrap_or(0) + 3 * (nparts - 1)).min(payload.len());
+                let fill = rng.below(5);
+                for b in payload[tok..].iter_mut() {
+                    *b = match fill { 0 => 0xff, 1 => 0x00, 2 => 0xaa, 3 => rng.byte(), _ => *b };
+                }
+                if rng.chance(1, 3) { let extra = rng.range(1, 64) as usize; payload.extend(std::iter::repeat(0xffu8).take(extra)); }
+                mutants.push((format!("vp8gen{}:extremes{}", k, fill), riff(&[(fourcc("VP8 "), payload)])));
+            }
+        }
         // cross-frame disagreements: take frames from one animation and put them under the ANMF headers of another
         let anims: Vec<_> = files.iter().filter(|i| i.kind == "animated").collect();
         for (ai, a) in anims.iter().enumerate() {
